@@ -17,7 +17,8 @@
    machine-checked theorem about a model tied to the Go code:
        EventSequencer (C02: net effect + no panic)            - built into `graph`, theorem c01_sequencer_net_effect
        IP set member index (C04: members exact, view form)    - c01_node_function_of_state_ipsetidx
-       label inheritance index (C07: index exact)             - c01_node_function_of_state_inherit
+       label inheritance index (C07: index exact)             - c01_node_function_of_state_inherit, and as a node of the
+                                                                abstract graph with its hf lemma: c01_inherit_index_node_hf
        IP pool passthru (this directory, Passthru.v)          - c01_history_independent_pools: NO hypothesis left
    Nodes that enter ONLY through up_hf (no Coq model here; they are exercised by the correspondence run against the
    real graph): ValidationFilter, dispatchers and local/remote endpoint filters, ActiveRulesCalculator, RuleScanner,
@@ -33,7 +34,7 @@ From stdpp Require Import gmap.
 From Verif.Common Require Import Sync.
 From Verif.C02 Require Import Model Spec.
 From Verif.C01 Require Import Model Spec Compose Instances Passthru L3Reflag L3Meets RoutesPools.
-From Verif.C01 Require InstC04 InstC07.
+From Verif.C01 Require InstC04 InstC07 NodeC07.
 
 (* --- the graph model: a synchronous producer->consumer composition runs the consumer on everything the producer emitted *)
 Theorem c01_seq_outs : forall A B C (n1 : node A B) (n2 : node B C) is,
@@ -220,4 +221,17 @@ Module InheritIndex.
       rel_mem i s (by_item (run ord1 sel_eqb ops1)) = rel_mem i s (by_item (run ord2 sel_eqb ops2)).
   Proof. exact InstC07.label_index_history_free. Qed.
   Print Assumptions c01_node_function_of_state_inherit.
+
+  (* the same index AS A NODE of the abstract graph (NodeC07.v): inputs = C07's operations with net state sp_run,
+     outputs = the OnMatchStarted/OnMatchStopped callbacks each operation fires with net state "pairs currently
+     started" (None = an illegal callback).  It is history-free in the sense of the composition theorems, for every
+     history and every map iteration order: the started pairs are exactly the pairs the specification wants. *)
+  Theorem c01_inherit_index_node_hf :
+    forall (ord : nat -> list N -> list N) (sel_eqb : ast -> ast -> bool),
+    (forall t l, Permutation (ord t l) l) ->
+    (forall a b, sel_eqb a b = true -> forall L, eval a L = eval b L) ->
+    hf (X := NodeC07.X7) (Y := NodeC07.Y7) (NodeC07.node7 ord sel_eqb) (fun _ => True) (fun _ => True)
+       (fun x => Some (expected x)).
+  Proof. exact NodeC07.node7_hf. Qed.
+  Print Assumptions c01_inherit_index_node_hf.
 End InheritIndex.
